@@ -894,6 +894,47 @@ fn api_state_family(rep: &mut Report) {
             }
         }
     }
+    // (d) tables shaped through set_implicit / set_dotted: a table that shows only through its children
+    for direct in [false, true] {
+        for dotted_child in [false, true] {
+            for sub in [false, true] {
+                for implicit in [false, true] {
+                    let mut doc = DocumentMut::new();
+                    doc["top"] = toml_edit::value(0);
+                    let mut first = Table::new();
+                    first.insert("f", toml_edit::value(1));
+                    doc.insert("first", Item::Table(first));
+                    let mut p = Table::new();
+                    p.set_implicit(implicit);
+                    let mut want_p: Vec<(String, T)> = Vec::new();
+                    if direct {
+                        p.insert("v", toml_edit::value(2));
+                        want_p.push(("v".into(), T::Leaf(Leaf::I(2))));
+                    }
+                    if dotted_child {
+                        let mut d = Table::new();
+                        d.set_dotted(true);
+                        d.insert("x", toml_edit::value(3));
+                        d.insert("y", toml_edit::value(4));
+                        p.insert("d", Item::Table(d));
+                        want_p.push(("d".into(), T::Tab(vec![("x".into(), T::Leaf(Leaf::I(3))), ("y".into(), T::Leaf(Leaf::I(4)))])));
+                    }
+                    if sub {
+                        let mut c = Table::new();
+                        c.insert("z", toml_edit::value(5));
+                        p.insert("c", Item::Table(c));
+                        want_p.push(("c".into(), T::Tab(vec![("z".into(), T::Leaf(Leaf::I(5)))])));
+                    }
+                    if want_p.is_empty() && implicit {
+                        continue; // an implicit table without anything below it has no spelling
+                    }
+                    doc.insert("p", Item::Table(p));
+                    let want = T::Tab(vec![("top".into(), T::Leaf(Leaf::I(0))), ("first".into(), T::Tab(vec![("f".into(), T::Leaf(Leaf::I(1)))])), ("p".into(), T::Tab(want_p))]);
+                    judge(&mut acc, format!("table p (implicit: {}) with direct value: {}, dotted child table: {}, sub-table: {}, after another table", implicit, direct, dotted_child, sub), &doc, want);
+                }
+            }
+        }
+    }
     // (c) wide documents: tables created through the API carry no position of their own and are printed relative to
     // their neighbours; with more than 20 of them any instability in that ordering shows
     for n in [0usize, 1, 2, 3, 19, 20, 21, 22, 23, 33, 48] {
